@@ -7,18 +7,23 @@ from .. import calg, cstmt, jmodel as J
 from ..cskel import Skel, OPEN, CLOSE
 
 EXPLANATION = (
-    "On the C++ of cvode/src/naunet.cpp.j2 specialised per method and the two odeint files (statement parser, no compilation; bare calls of void helpers "
-    "defined in the same file are replaced by their bodies, parameters are taken by position from the function header, guard clauses count as guards): "
-    "R1 every status returned by a CVode* call in Solve / HandleError is read (CheckFlag, HandleError argument, comparison) before it is overwritten or the "
-    "function returns; R2 in HandleError every exit that can return NAUNET_SUCCESS is unreachable for a sample of negative flags under the guards that still "
+    "On the C++ of cvode/src/naunet.cpp.j2 specialised per method and the two odeint files (statement parser, no compilation; calls of helpers "
+    "defined in the same file are replaced by their bodies under C++ parameter passing -- a by-value parameter the helper writes is a copy, reference / "
+    "pointer parameters are the caller's variable, early returns become the other arm of their guard --, named numeric constants of the file and its "
+    "headers and CVODE's flag names are their numbers, parameters are taken by position from the function header, guard clauses count as guards): "
+    "R1 every status returned by a CVode* call in Solve / HandleError / Init / Reset (and in any other function of the file that stores one) is read "
+    "(CheckFlag, HandleError argument, comparison) before it is overwritten or the function returns, and a NAUNET_FAIL reported by an inlined helper is "
+    "looked at by its caller; R2 in HandleError every exit that can return NAUNET_SUCCESS is unreachable for a sample of negative flags under the guards that still "
     "hold there (conditions evaluated, not matched; a test on a flag written since does not count), the function falls through to NAUNET_FAIL; Solve hands "
     "HandleError the flag, the state, the interval and the time CVode reached, returns its result and logs the initial state iff it is NAUNET_FAIL; "
     "R3 ladder premises by symbolic execution of the start of a level for each sampled flag: -1..-4 and -6 reach CVodeReInit(cv_mem_, 0, cv_y_), every other "
     "negative flag returns NAUNET_FAIL; with G = the target of the last sub-step as a function of the state at the re-initialisation (loop variable at its "
     "last value), a recoverable flag leaves G = G(level start) - (time reached) and the state reached, the reset flag leaves G = G(function entry) and "
-    "ab_init_, G(function entry) is the requested interval, and CVode reports progress into the time-reached parameter; levels are 1..5; "
+    "ab_init_, G(function entry) is the requested interval, and CVode reports progress into the time-reached parameter (not into a copy of it); "
+    "the comparisons are made for every level with the loop variable at its value; levels (the loop variable, or the number derived from it that the "
+    "targets use) are 1..5; "
     "R4 odeint: the observer throws exactly when counter > budget (truth table), counts unconditionally and before testing, the thrown type is the type "
-    "Solve catches, Solve returns NAUNET_SUCCESS when the try block completes and NAUNET_FAIL through every handler, integrate_adaptive runs over [0, dt] on the "
+    "Solve catches, Solve returns NAUNET_SUCCESS when the try block completes and NAUNET_FAIL through every handler (entered from each statement of the try block that can throw), integrate_adaptive runs over [0, dt] on the "
     "vector that is copied back, with an observer built per call from mxsteps_; R5 every caller of Solve inside the templates throws exactly when its result is "
     "NAUNET_FAIL (cvode and odeint Python wrappers agree); R6 (premise of R3) cv_y_ has no storage of its own and is pointed at the caller's array before "
     "CVodeInit, so the state HandleError writes is the state CVodeReInit restarts from.")
